@@ -108,11 +108,11 @@ theorem latest_old_ok_absolute {α : Type} (latest : α) (cwd : List α) (o : P 
 example : (⟨true, [Comp.nm 0, Comp.up, Comp.nm 1]⟩ : P Nat).abs = true ∧ ([7] : List Nat) ≠ [] := by decide
 
 /-- **survive_table** — whatever the flags and whichever steps fail: the artifacts directory is
-still there at the end iff (the program failed ∨ `-k`) and the run directory was not erased; the
+still there at the end iff (the play failed ∨ `-k`) and the run directory was not erased; the
 run directory is erased iff (`--clear` ∨ an upload URL) and the program did not fail. -/
 theorem survive_table (f : Flags) (e : Faults) :
     ((runEnd f e).artifacts = true ↔
-        ((runEnd f e).exitNonZero = true ∨ f.k = true) ∧
+        ((runEnd f e).playFailed = true ∨ f.k = true) ∧
           ¬ ((f.clear = true ∨ f.upload = true) ∧ (runEnd f e).exitNonZero = false))
     ∧ ((runEnd f e).runDir = false ↔
         (f.clear = true ∨ f.upload = true) ∧ (runEnd f e).exitNonZero = false) := by
@@ -122,15 +122,30 @@ theorem survive_table (f : Flags) (e : Faults) :
 
 /-- the executable form used as oracle on the real tree agrees with the statement above -/
 theorem survive_spec_holds (f : Flags) (e : Faults) :
-    surviveSpec f (runEnd f e).exitNonZero (runEnd f e).artifacts (runEnd f e).runDir = true := by
+    surviveSpec f (runEnd f e).playFailed (runEnd f e).exitNonZero (runEnd f e).artifacts (runEnd f e).runDir = true := by
   obtain ⟨k, c, u, s⟩ := f
   obtain ⟨p, i, pl, up⟩ := e
   cases k <;> cases c <;> cases u <;> cases s <;> cases p <;> cases i <;> cases pl <;> cases up <;> decide
 
-/-- a failed run never loses its results: no flag erases the run directory or the artifacts of a
-run that exits with a non-zero status -/
+/-- **what is uploaded** holds the artifacts iff the play failed or `-k` was given (the manual erases the artifacts,
+step 4, before it uploads, step 5) -/
+theorem uploaded_artifacts (f : Flags) (e : Faults) (h : (runEnd f e).uploaded = true) :
+    (runEnd f e).uploadedArtifacts = true ↔ ((runEnd f e).playFailed = true ∨ f.k = true) := by
+  obtain ⟨k, c, u, s⟩ := f
+  obtain ⟨p, i, pl, up⟩ := e
+  revert h
+  cases k <;> cases c <;> cases u <;> cases s <;> cases p <;> cases i <;> cases pl <;> cases up <;> decide
+
+/-- before the repair a clean play without `-k` was uploaded with its artifacts (witness) -/
+theorem old_uploads_artifacts_of_a_clean_play :
+    (runEndOld ⟨false, false, true, false⟩ ⟨false, false, false, false⟩).uploadedArtifacts = true ∧
+    (runEnd ⟨false, false, true, false⟩ ⟨false, false, false, false⟩).uploadedArtifacts = false := by decide
+
+/-- a failed run never loses its results: no flag erases the run directory or result.js of a run that exits with a
+non-zero status, nor the artifacts of a play that failed -/
 theorem failure_keeps_everything (f : Flags) (e : Faults) (h : (runEnd f e).exitNonZero = true) :
-    (runEnd f e).runDir = true ∧ (runEnd f e).artifacts = true ∧ (runEnd f e).result = true := by
+    (runEnd f e).runDir = true ∧ (runEnd f e).result = true ∧
+      ((runEnd f e).playFailed = true → (runEnd f e).artifacts = true) := by
   obtain ⟨k, c, u, s⟩ := f
   obtain ⟨p, i, pl, up⟩ := e
   revert h
